@@ -267,8 +267,14 @@ impl World {
         })
     }
 
+    /// `Err` = the accessor panicked (a verdict for the caller to file, not a harness error).
+    pub fn try_resource_usage(&mut self) -> Result<ResourceUsage, String> {
+        self.with(|w| w.log.as_ref().unwrap().resource_usage())
+    }
+
+    /// As `try_resource_usage`; a panicking accessor yields a poisoned value that violates every accounting bound.
     pub fn resource_usage(&mut self) -> ResourceUsage {
-        self.with(|w| w.log.as_ref().unwrap().resource_usage()).expect("resource_usage panicked")
+        self.try_resource_usage().unwrap_or(ResourceUsage { memory_used_bytes: usize::MAX, memory_allocated_bytes: 0, disk_used_bytes: usize::MAX })
     }
 
     /// Runs an arbitrary closure over the log with the world installed.
